@@ -223,6 +223,8 @@ func awkwardCatalogue() []named {
 		{"typednil-*AStack", nstk},
 		{"typednil-*ACond", ncnd},
 		{"typednil-*Stack", nnative},
+		{"typednil-*Condition", (*stackage.Condition)(nil)},
+		{"typednil-*ComparisonOperator", (*stackage.ComparisonOperator)(nil)},
 		{"ptr-to-typednil", &np},
 		{"zero-Stack", stackage.Stack{}},
 		{"zero-Condition", stackage.Condition{}},
@@ -284,7 +286,8 @@ func variants(t reflect.Type, anys []named) []named {
 		return []named{{"nil", reflect.Zero(tErr)}, {"err", sentinelErr}}
 	case t == tOperator:
 		return []named{{"Eq", stackage.Eq}, {"nil", reflect.Zero(tOperator)}, {"op0", stackage.ComparisonOperator(0)},
-			{"op9", stackage.ComparisonOperator(9)}, {"user", userOp("~=")}, {"emptyop", emptyOp{}}}
+			{"op9", stackage.ComparisonOperator(9)}, {"user", userOp("~=")}, {"emptyop", emptyOp{}},
+			{"tnilop", (*stackage.ComparisonOperator)(nil)}}
 	}
 	switch t.Kind() {
 	case reflect.Int:
